@@ -1276,6 +1276,43 @@ def run(index, rep, tier):
                           "%s builds the state alphabet from the symbols, missing and gap characters the document declares with `%s(...)` outside any ValueError handler: `symbols=\"01?\"`, `missing=1` with symbols 01, or `missing=- gap=-` make the constructor raise `ValueError: State with symbol ... already defined`, which reaches the caller instead of a data-parse error" % (f.qualname, norm(c.func)))
         rep.floor("R20.15", "alphabets built from document values", 1, nsa)
 
+    # ---- R20.16 NEXUS matrices do not contradict their DIMENSIONS
+    with rep.section("R20.16"):
+        rep.rule("R20.16", "a NEXUS matrix does not contradict its DIMENSIONS statement: (a) on every mode (sequential and interleaved) a comparison of a row's length with the declared NCHAR that raises lies on every normal path from the data loop to the return of the matrix statement; (b) the number of rows read is compared with the declared NTAX on a raising path")
+        pms = index.function(DIO + "nexusreader.NexusReader._parse_matrix_statement")
+        procs = [index.function(DIO + "nexusreader.NexusReader._process_discrete_matrix_data"), index.function(DIO + "nexusreader.NexusReader._process_continuous_matrix_data")]
+
+        def nchar_check(g, n):
+            return n.kind == "test" and isinstance(n.ast, ast.Compare) and "self._file_specified_nchar" in norm(n.ast) and "len(" in norm(n.ast) and (raises_in_branch(g, n, "t") is not None or raises_in_branch(g, n, "f") is not None)
+        gm = cfg_of(pms)
+        post_nodes = [n for n in gm.nodes if nchar_check(gm, n)]
+        pcalls = [n for n in gm.nodes if any(call_name(c) in ("_process_discrete_matrix_data", "_process_continuous_matrix_data") for c in node_calls(n))]
+        if len(pcalls) != 2:
+            raise AnalysisError("R20.16: matrix processing calls in _parse_matrix_statement not recognised")
+        pm_m = parent_map(pms.node)
+        passing = {n.id for n in post_nodes}
+        for t in post_nodes:
+            cur = pm_m.get(t.stmt)
+            while cur is not None and cur is not pms.node:
+                if isinstance(cur, (ast.For, ast.While)):
+                    passing |= {n.id for n in gm.nodes if n.stmt is cur and n.kind in ("for", "forinit", "join")}
+                cur = pm_m.get(cur)
+        covered_after = all(gm.must_pass(pc, lambda n: n.id in passing)[0] for pc in pcalls) if post_nodes else False
+        for pf in procs:
+            g = cfg_of(pf)
+            loops = [l for l in walk_no_nested(pf.node) if isinstance(l, ast.While)]
+            if len(loops) != 2:
+                raise AnalysisError("R20.16: %s: sequential / interleaved data loops not recognised" % pf.qualname)
+            for l in loops:
+                inloop = [n for n in g.nodes if nchar_check(g, n) and any(n.stmt is x for x in ast.walk(l))]
+                mode = "interleaved" if any(isinstance(x, ast.Try) and any(l is y for y in ast.walk(x)) for x in walk_no_nested(pf.node)) else "sequential"
+                ok = bool(inloop) or covered_after
+                rep.check(ok, "R20.16", pf.qualname, "%s rows are never compared with the declared NCHAR" % mode, fn_where(pf, l), "%s: %s rows are compared with NCHAR (%s)" % (pf.name, mode, "in the loop" if inloop else "after processing"),
+                          "%s reads %s rows without ever comparing their final length with the declared NCHAR on a raising path (neither in its loop nor in _parse_matrix_statement afterwards): an interleaved matrix whose second block is short - rows of 3 and 4 characters for NCHAR=4 - is returned as it is, contradicting the dimensions the document declares" % (pf.qualname, mode))
+        ntax_checks = [n for f_ in [pms] + procs for n in cfg_of(f_).nodes if n.kind == "test" and isinstance(n.ast, ast.Compare) and "self._file_specified_ntax" in norm(n.ast) and "len(" in norm(n.ast) and (raises_in_branch(cfg_of(f_), n, "t") is not None or raises_in_branch(cfg_of(f_), n, "f") is not None)]
+        rep.check(bool(ntax_checks), "R20.16", pms.qualname, "number of rows never compared with the declared NTAX", fn_where(pms), "the number of rows read is compared with NTAX",
+                  "NexusReader._parse_matrix_statement (with the two _process_*_matrix_data routines) never compares the number of rows it read with the declared NTAX: `dimensions ntax=2 nchar=4; matrix a ACGT ;` - or any document cut after a complete row - is returned as a one-row matrix that contradicts its own DIMENSIONS statement")
+
 
 def _branch_calls_raiser(cfg, n):
     for lab, t in n.succ:
